@@ -30,7 +30,10 @@ theorem complex_division_den_eq (a b c d : Int) :
 theorem conjugate_eq (re im : Int) : (⟨re, conjugate_im im⟩ : Cpx Int) = conj ⟨re, im⟩ := by
   simp only [conjugate_im, conj, Int.mul_neg, Int.mul_one]
 
-theorem safe_divide_eq {R : Type} [Zero R] [One R] [Div R] [DecidableEq R] (a b : R) : safe_divide a b = safeDiv a b := rfl
+/-- `safe_divide` as written in /repo is `if other = 0 then 0 else input / other` — *zero*, not the
+numerator, where the divisor is zero -/
+theorem safe_divide_eq {R : Type} [Zero R] [One R] [Add R] [Mul R] [Div R] [DecidableEq R] (a b : R) :
+    safe_divide a b = safeDiv a b := rfl
 
 /-- `complex_division` assembled from the translated pieces is the model's `cdiv` (over `Rat`, the
 scalars the driver executes with) -/
